@@ -22,7 +22,7 @@ from lib import common as C
 from lib import hkgrammar as G
 from lib import hkgen
 
-HM = 2305843009213693951
+HM = 2305843009213693951      # 2^61 - 1, used as a bit mask (see Model/LexerGlue.v)
 HP = 1000003
 
 ENV = {"HK_A": "alpha", "HK_LISTEN": ":18099", "HK_REF": "env:FROM_ENV", "HK_HOST": "ci.internal", "HK_BLANK": "",
@@ -39,13 +39,13 @@ def unb64(s):
 
 
 def mix(h, x):
-    return (h * HP + x + 1) % HM
+    return (h * HP + x + 1) & HM
 
 
 def hash_runes(rs):
     h = mix(23, len(rs))
     for x in rs:
-        h = (h * HP + x + 1) % HM
+        h = (h * HP + x + 1) & HM
     return h
 
 
@@ -77,41 +77,37 @@ def hash_fmt_go(o):
     return h
 
 
-def _lit_ok(x):
-    return (32 <= x <= 126) or x == 10 or x == 9
+def pack_runes(rs):
+    """rune list -> list of ints for Model/LexerGlue.runes_of_ints (see there for the encoding)"""
+    bs = bytearray()
+    for r in rs:
+        if r < 248:
+            bs.append(r)
+        else:
+            bs += bytes((248, (r >> 16) & 255, (r >> 8) & 255, r & 255))
+    out = []
+    for i in range(0, len(bs), 7):
+        chunk = bs[i:i + 7]
+        v = len(chunk) << 56
+        for j, b in enumerate(chunk):
+            v |= b << (8 * j)
+        out.append(v)
+    return out
 
 
 def coq_text(t):
-    """Coq term (list N) for a compact text: printable-ASCII runs as string literals (cheap to
-    elaborate), everything else as numerals"""
-    if "a" in t:
-        return "(runes_of_string %s)" % C.coq_string(t["a"]) if t["a"] else "(@nil N)"
-    rs = txt_runes(t)
-    if not rs:
+    """Coq term (list N) for a compact text"""
+    ints = pack_runes(txt_runes(t))
+    if not ints:
         return "(@nil N)"
-    parts = []
-    i = 0
-    while i < len(rs):
-        j = i
-        if _lit_ok(rs[i]):
-            while j < len(rs) and _lit_ok(rs[j]):
-                j += 1
-            if j - i >= 4:
-                parts.append("runes_of_string %s" % C.coq_string("".join(map(chr, rs[i:j]))))
-            else:
-                parts.append("[" + ";".join(str(x) for x in rs[i:j]) + "]%N")
-        else:
-            while j < len(rs) and not _lit_ok(rs[j]):
-                j += 1
-            parts.append("[" + ";".join(str(x) for x in rs[i:j]) + "]%N")
-        i = j
-    return "(" + " ++ ".join(parts) + ")%list"
+    chunks = ["[" + ";".join(map(str, ints[i:i + 800])) + "]" for i in range(0, len(ints), 800)]
+    return "(runes_of_ints (" + " ++ ".join(chunks) + "))"
 
 
 def text_cost(t):
     if "a" in t:
         return len(t["a"])
-    return sum(1 if _lit_ok(x) else 8 for x in t.get("r", []))
+    return sum(1 if x < 248 else 4 for x in t.get("r", []))
 
 
 # ---------------------------------------------------------------------------
@@ -451,8 +447,8 @@ def coq_hashes(ctx, name, fn, texts, par=16):
     costs = [text_cost(t) + 20 for t in texts]
     total = sum(costs)
     target = max(15000, -(-total // par))
-    if target > 220000:
-        target = 220000
+    if target > 600000:
+        target = 600000
     shards, cur, size = [], [], 0
     for t, c in zip(texts, costs):
         cur.append(t)
@@ -464,11 +460,11 @@ def coq_hashes(ctx, name, fn, texts, par=16):
         shards.append(cur)
     bodies = []
     for sh in shards:
-        b = ["From Coq Require Import List NArith String.",
+        b = ["From Coq Require Import List NArith Uint63.",
              "From HK Require Import Model.Lexer Model.FormatValue Model.LexerGlue.",
-             "Import ListNotations.", "Open Scope string_scope.",
-             "Definition cases : list (list N) := [%s]." % ";\n ".join(coq_text(t) for t in sh),
-             "Definition R := Eval vm_compute in map %s cases." % fn, "Print R."]
+             "Import ListNotations.", "Open Scope uint63_scope.",
+             "Definition R := Eval vm_compute in map %s ([%s] : list (list N))." % (fn, ";\n ".join(coq_text(t) for t in sh)),
+             "Print R."]
         bodies.append("\n".join(b) + "\n")
     res = C.coq_eval_shards(ctx, name, bodies, par=par)
     out = []
@@ -491,9 +487,9 @@ def coq_hashes(ctx, name, fn, texts, par=16):
 
 
 def coq_dump_lex(ctx, t):
-    body = "\n".join(["From Coq Require Import List NArith String.",
+    body = "\n".join(["From Coq Require Import List NArith Uint63.",
                       "From HK Require Import Model.Lexer Model.FormatValue Model.LexerGlue.",
-                      "Import ListNotations.", "Open Scope string_scope.",
+                      "Import ListNotations.", "Open Scope uint63_scope.",
                       "Definition R := Eval vm_compute in dump_lex %s." % coq_text(t), "Print R."]) + "\n"
     rc, o = C.coq_eval_cases(ctx, "c19dump", body)
     return " ".join(o.split())[:1500]
@@ -516,6 +512,8 @@ def main(ctx, replay):
         "utf8.DecodeRuneInString (Go standard library) is executed by the harness; the Coq lexer works on its step sequence "
         "(undecodable byte = item >= 0x110000)",
         "Compile reads the process environment and files for {$X}/{env.X}/{file.X}; the harness fixes both for the run",
+        "inputs are shipped to Coq as lists of primitive 63-bit integers (Model/LexerGlue.v, Uint63) and decoded there; "
+        "this glue and the checksums are test plumbing, no theorem of Properties/C19.v depends on them",
         "canonical dump: nil slice/map == empty; validation errors/warnings compared as sorted multisets (Compile iterates a "
         "map in compileVars); an order-only difference is counted in the evidence, not reported",
     ]
@@ -769,6 +767,67 @@ def main(ctx, replay):
                           "expected": "Parse(f) succeeds, Compile(Parse t) == Compile(Parse f), Format(Parse f) == f",
                           "how_to_replay": "./check C19 --replay <this file>"})
     affected = sorted(f for f, r in sweep.items() if r["fails"] or r.get("in_context_fails"))
+
+    # ---- 5b. spelling sweep: every value slot of the language, in context, set to values whose spelling is delicate
+    # (a sibling directive keyword, blanks inside, '#', brace, quote+backslash, escapes, non-ASCII, a placeholder)
+    sp_n = 1 if quick else 4
+    sp = []
+    sp_count = {}
+    for k in order:
+        items = gens[k][0]
+        fl = hkgen.flat(items)
+        w = G.Walk([(a, b) for a, b, _, _ in fl])
+        if not w.ok:
+            continue
+        for idx, ctxp in enumerate(w.slots):
+            if not ctxp:
+                continue
+            fam = G.family(ctxp)
+            if sp_count.get(fam, 0) >= sp_n:
+                continue
+            sp_count[fam] = sp_count.get(fam, 0) + 1
+            ii, ti = fl[idx][2], fl[idx][3]
+            blk = fam.split("/")[0]
+            if fam == "top/route path":
+                specials = [b'"/with space"', b'"/h#x"', b'"/b{x}"', b'"/q\\"u\\\\"', b'"noslash"', b'"/\xc3\xa9"', b'/plain']
+            else:
+                kws = sorted(G.SPEC.get(blk, {}).keys()) or ["deny"]
+                kw = kws[(len(sp) // 7) % len(kws)].encode()
+                specials = [b'"' + kw + b'"', b'"a b"', b'"x#y"', b'"{"', b'"a\\"b\\\\c"', b'"t\\tb \xc3\xa9\xf0\x9f\x98\x80"', b'{$HK_A}']
+            for spv in specials:
+                its = [it.copy() for it in items]
+                its[ii].toks[ti] = spv
+                sp.append((fam, spv, hkgen.render(its)))
+    spres = []
+    for i in range(0, len(sp), B):
+        spres += impl.roundtrip([t for _, _, t in sp[i:i + B]], dumps=False)
+    sp_stats = {"mutants": len(sp), "accepted_by_parse": 0, "failing": 0, "families": len(sp_count)}
+    sp_shrink = 6 if quick else 30
+    for (fam, spv, t), o in zip(sp, spres):
+        if o["parse_ok"]:
+            sp_stats["accepted_by_parse"] += 1
+        kind = failure_kind(o)
+        if not kind:
+            continue
+        sp_stats["failing"] += 1
+        if sp_shrink <= 0:
+            continue
+        sp_shrink -= 1
+        small = shrink(impl, t, kind)
+        o2 = impl.roundtrip([small], dumps=True)[0]
+        if failure_kind(o2) != kind:
+            small, o2 = t, impl.roundtrip([t], dumps=True)[0]
+        key, det = name_failure(impl, small, o2)
+        if not key.startswith("blank-value-dropped:"):
+            key = "%s@%s" % (key, fam)
+        if key not in reported:
+            reported[key] = small
+            C.report(ctx, key, "%s after fmt: %s" % (kind, small.decode("utf-8", "replace").replace("\n", "\\n")[:200]),
+                     {"kind": "program", "case": {"text_b64": b64(small), "text": small.decode("utf-8", "replace"),
+                                                  "origin": "spelling-sweep", "slot": fam, "value": spv.decode("utf-8", "replace")},
+                      "observed": dict(det, formatted=unb64(o2["formatted"]).decode("utf-8", "replace") if o2.get("formatted") else None),
+                      "expected": "Parse(f) succeeds, Compile(Parse t) == Compile(Parse f), Format(Parse f) == f",
+                      "how_to_replay": "./check C19 --replay <this file>"})
     flip_examples = {f: flips[f].decode("utf-8", "replace")[:900] for f in sorted(flips)}
 
     phase("blank-sweep")
@@ -796,7 +855,9 @@ def main(ctx, replay):
             continue
         seen_src[k] = 1
         uniq_lex.append((tag, lo))
+    phase("lexer-impl")
     coq_h, nshards = coq_hashes(ctx, "c19lex", "hash_lex", [lo["src"] for _, lo in uniq_lex])
+    phase("lexer-coq")
     lex_mism = 0
     end_hist = collections.Counter()
     tok_total = 0
@@ -840,7 +901,9 @@ def main(ctx, replay):
     vres = []
     for i in range(0, len(vals), 4000):
         vres += impl.values(vals[i:i + 4000])
+    phase("helper-impl")
     coq_v, nsh2 = coq_hashes(ctx, "c19val", "hash_fmt", [o["src"] for o in vres])
+    phase("helper-coq")
     val_mism = 0
     vstats = collections.Counter()
     for o, hc in zip(vres, coq_v):
@@ -876,12 +939,12 @@ def main(ctx, replay):
                             "compile_ok": False, "n_errors": res[i]["n_errors"]})
     dl = sorted(per_prog_dirs)
     cov.update({
-        "evaluations": len(texts) + len(sweep_texts) + len(uniq_lex) + len(vres),
+        "evaluations": len(texts) + len(sweep_texts) + len(ic_texts) + len(sp) + len(uniq_lex) + len(vres),
         "distinct_nontrivial": len(nontrivial),
         "rule": "distinct texts accepted by the real config.Parse (each was formatted, re-parsed, compiled twice and formatted "
                 "again); generated programs cover every block/directive kind of parser.go (kinds_missing lists what was not hit)",
         "samples": samples,
-        "traces_validated_against_impl": len(accepted) + len(sweep_texts),
+        "traces_validated_against_impl": len(accepted) + len(sweep_texts) + len(ic_texts) + len(sp),
         "input_distribution": {
             "programs_generated": len(gens), "wild_mode": sum(1 for g in gens if g[2]),
             "corpus_candidates": len(corpus), "corpus_accepted_by_parse": n_cor_acc,
@@ -904,6 +967,7 @@ def main(ctx, replay):
                               "families_where_an_invalid_config_validates_after_fmt": sorted(flips),
                               "shortest_flip_example": flip_examples,
                               "table": {f: sweep[f] for f in sorted(sweep)}},
+        "spelling_sweep": sp_stats,
         "lexer_correspondence": {"texts": len(uniq_lex), "tokens": tok_total, "mismatches": lex_mism, "coq_shards": nshards,
                                  "end_classes": {str(k): v for k, v in sorted(end_hist.items())},
                                  "value_tokens_roundtripped_on_impl": values_total, "value_tokens_broken": rt_bad_total},
